@@ -175,6 +175,8 @@ func K4() *Entry {
 	c.CustomTypes = map[string]string{"Casts.Joined": "verif/types.Joined", "Casts.Plain": "verif/types.Labels", "Casts.PlainToo": "verif/types.Labels", "Casts.UnderPath": "verif/my_lib/api_v2.Owner_Ref"}
 	// (suffixes are taken verbatim: acronyms, digits before capitals)
 	c.Suffixes = map[string]string{"CustomB": "Switch", "verif/types.Labels": "HTTPLabelsV2"}
+	// an import override for the package that qualifies custom type names (the names only make the hook suffix)
+	c.ImportPathOverrides = map[string]string{"verif/types": "example.com/elsewhere/types", "verif/my_lib/api_v2": "example.com/elsewhere/api"}
 	return &Entry{Name: "k4", File: f, Cfg: c, Tags: []string{"cast", "custom", "oneof"}}
 }
 
@@ -386,6 +388,10 @@ func K9() *Entry {
 	c.Validators = map[string][]string{"Meta.Revision": {V("rev")}, "User.Meta.Revision": {}, "Owner.Login": {V("teleport.dev/login"), V("login.v2")}, "User.Backup.Owner.Login": {}}
 	// (on a field that is not computed: whether an explicit empty list also switches the UseStateForUnknown default off is not documented)
 	c.PlanModifiers["Owner.Login"] = []string{PM("login-pm")}
+	// computed by full path, plan modifiers by Message.Field: the explicit list wins over the UseStateForUnknown default
+	c.ComputedFields = append(c.ComputedFields, "User.Backup.Expires", "Pref.Meta.Name")
+	c.PlanModifiers["Meta.Expires"] = []string{PM("expires-pm")}
+	c.PlanModifiers["Meta.Name"] = []string{PM("name.pm/v1"), PM("name-second")}
 	c.PlanModifiers["User.Backup.Owner.Login"] = []string{}
 	return &Entry{Name: "k9", File: f, Cfg: c, Tags: []string{"multi-path", "multi-root", "embed", "time"}}
 }
